@@ -161,6 +161,7 @@ def main():
         ii = F.run_impl(mod.IMPL[0], mod.IMPL[1], [cand])[0]
         return canon(cand, mm) != canon(cand, ii)
 
+    extra = {}
     inenv_dis = [d for d in disagreements if d[3]]
     if oracle_fail:
         c, i, msg = oracle_fail[0]
@@ -190,13 +191,27 @@ def main():
                                       log=po.get('log', '')[-3000:]))
         violations.append((rp, ' no-failing-input-found'))
 
-    extra = {}
     if hasattr(mod, 'extra_checks') and not args.replay:
         for name, okx, detail, replay_payload in mod.extra_checks(tier, seed):
             extra[name] = detail
             if not okx:
                 rp = F.write_replay(pid, replay_payload)
                 violations.append((rp, '' if replay_payload.get('kind') in ('counterexample', 'oracle') else ' no-failing-input-found'))
+
+    # thorough tier: cross-check the extraction (OCaml driver output = vm_compute inside coqc) on a sample
+    if tier == 'thorough' and not args.replay and os.environ.get('VERIF_NO_VMCHECK') != '1':
+        try:
+            k = min(40, len(enc))
+            small = [(j, e) for j, e in enumerate(enc[:400]) if len(F.to_sx(e)) < 6000][:k]
+            vm = F.run_model_vm(str(mod.KIND), [e for _, e in small], pid)
+            bad_vm = [j for (j, _), v in zip(small, vm) if v != mo[j]]
+            extra['extraction_vs_vm_compute'] = dict(cases=len(small), mismatches=len(bad_vm))
+            if bad_vm or len(vm) != len(small):
+                rp = F.write_replay(pid, dict(kind='extraction', correspondence='OCaml extraction vs vm_compute',
+                                              case=cases[bad_vm[0]] if bad_vm else None, parsed=len(vm), expected=len(small)))
+                violations.append((rp, ' no-failing-input-found'))
+        except Exception as e:
+            extra['extraction_vs_vm_compute'] = dict(error=str(e)[-400:])
 
     coverage.update(evaluations=len(cases), distinct_nontrivial=nontrivial, rule=mod.RULE,
                     samples=samples, traces_validated_against_impl=len(cases) - len(disagreements),
